@@ -97,6 +97,7 @@ pub fn random_cfg(rng: &mut Rng, n_keys: u16, n_meta: u8, dup: Option<bool>) -> 
         auto_rotate: false,
         bloom_flip: false,
         max_blob_size: None,
+        deferred_ms: None,
     }
 }
 
